@@ -46,9 +46,9 @@ def check(rep, prop, tier, seed):
     for n in ("can", "tscf", "ntscf", "udp", "acfCommon", "commonHeader"):
         for c in ("checkC01", "checkC02", "checkC04"):
             obligations.append(("%s_%s" % (c, n), "%s Spec.%s Gen.%s = true" % (c, n, n), "by decide +kernel"))
-    general = ["O1722.C19_message", "O1722.C19_packet", "O1722.C19_stream", "O1722.talkLoop_spec", "O1722.C06_builder"]
+    general = ["O1722.C19_message", "O1722.C19_packet", "O1722.C19_stream", "O1722.talkLoop_spec", "O1722.C19_packet_no_stale", "O1722.talkMsg_determined", "O1722.C06_builder"]
     atoms_expr = "[" + ", ".join("(\"%s\", (atomsC01 Spec.%s Gen.%s) ++ (atomsC02 Spec.%s Gen.%s))" % (n, n, n, n, n) for n in ("can", "tscf", "ntscf", "udp", "acfCommon", "commonHeader")) + "]"
-    res = pipeline.proof_stage(rep, prop, ["O1722.Gen.Data", "O1722.Props.Tunnel"], obligations, general, atoms_expr)
+    res = pipeline.proof_stage(rep, prop, ["O1722.Gen.Data", "O1722.Props.Tunnel", "O1722.Props.TunnelDet"], obligations, general, atoms_expr)
     exe = examples.build_can()
     common.ensure_driver()
     total = 0
